@@ -40,6 +40,9 @@ TRUSTED = [
     "the datasets' vocabularies) -- no private cache such as OtOr_: the fold-in system is rebuilt by the model and by the oracle from the item embeddings of the LAST training; "
     "exact float->rational conversion, tolerances 2^-40 (float64 results) and 2^-18 (results of a few float32 operations: bias sums, normalised fold-in ratings)",
     "BiasModel's formulas are property C08's; here the learned bias arrays are read from the trained object",
+    "NumPy's generators: default_rng(seed source) and Generator.shuffle define 'the seeded sample order'; the harness repeats the draw on a generator equal to the one the training "
+    "is given (SPEC 7: default_rng of the integer / sequence / SeedSequence / Generator / BitGenerator, in the options or installed with lenskit.random.set_global_rng) and hands the "
+    "indices to the model (is_order checks that they are a permutation)",
     "torch / numba / numpy kernels, TorchScript fork/wait fan-out (> 50 rows) are exercised, not verified",
 ]
 ASSUMPTIONS = [
@@ -58,7 +61,11 @@ RULE = ("structured generator: 2-9 users x 2-10 items (12x12 in the thorough tie
         "dyadic, its bias model computed exactly, and 1-2 histories (single or double precision rating column) are solved for whose residuals r - b_g - b_i cancel exactly "
         "(known items with a dyadic bias and unknown items, the last rating balancing the others; or every rating exactly at its baseline: all-zero embedding), presented mostly "
         "for a user known from training whose stored bias is not 0, also for an unknown / absent user; every residual / score / "
-        "trajectory check of a training and its queries is made against the state that training left; malformed stream: zero regularisation (solver may fail), zero epochs; "
+        "trajectory check of a training and its queries is made against the state that training left; the way the seed reaches a training is drawn for every training "
+        "(first and later ones, ALS and FunkSVD): TrainingOptions(rng = integer / integer sequence / SeedSequence / Generator / BitGenerator) or TrainingOptions() with "
+        "lenskit.random.set_global_rng(<any of these>) called right before train() (about 4 in 11; the process-wide generator is put back afterwards) -- the FunkSVD sample order is "
+        "recomputed from a generator equal to the one the seed stands for, the float run of the model goes over the stored ratings in THAT order, and a second FunkSVD training "
+        "from an equal seed source on a new object must leave the same features; malformed stream: zero regularisation (solver may fail), zero epochs; "
         "non-trivial = training ran, at least one half-step updated >= 2 rows with data (ALS) or >= 2 samples share a user or item (FunkSVD), "
         "and at least one query returned a finite score; distinct = by hash of the case")
 
@@ -274,7 +281,47 @@ def gen_case(rng, tier, malformed=False, wide=False):
     if not wide:
         aim_zero_history_bias(rng.fork("zero-history-bias"), case, case)
         gen_trainings(rng.fork("trainings"), case)
+    aim_seed_route(rng.fork("seed-route"), case)
     return case
+
+
+# ---------------------------------------------------------------------------------------------
+# the way the seed reaches a training (own fork of the random stream: every other draw of a case is what it was)
+#
+# A seed is a seed whichever way it is handed over: in the options as an integer, a sequence of integers, a
+# SeedSequence, a Generator or a BitGenerator (SPEC 7), or not in the options at all -- TrainingOptions() -- with a
+# generator installed through lenskit.random.set_global_rng(<any of these>) beforehand.  Every training of every case
+# (first and later ones, ALS and FunkSVD) draws its route here; harness/c10_impl.py builds the options / installs and
+# afterwards restores the process-wide generator, and recomputes the FunkSVD sample order from an equal generator.
+# ---------------------------------------------------------------------------------------------
+
+SEED_ROUTES = [("int", 8), ("list", 1), ("seedseq", 1), ("generator", 2), ("bitgen", 1),
+               ("global-int", 4), ("global-list", 1), ("global-seedseq", 1), ("global-generator", 2), ("global-bitgen", 1)]
+
+
+def aim_seed_route(rng, case):
+    case["seed_route"] = rng.weighted(SEED_ROUTES)
+    for t in case.get("trainings") or []:
+        t["seed_route"] = rng.weighted(SEED_ROUTES)
+
+
+def route_of(case):
+    return case.get("seed_route") or "int"
+
+
+def route_tag(case):
+    """key suffix naming the route of the seed (none for the plain integer in the options)"""
+    r = route_of(case)
+    return "" if r == "int" else f":seed-via-{r}"
+
+
+def describe_route(case):
+    r = route_of(case)
+    what = {"int": "{s}", "list": "[integers made of {s}]", "seedseq": "SeedSequence({s})", "generator": "default_rng({s})",
+            "bitgen": "PCG64({s})"}[r[len("global-"):] if r.startswith("global-") else r].format(s=case["seed"])
+    if r.startswith("global-"):
+        return f"TrainingOptions() without an rng, lenskit.random.set_global_rng({what}) called right before train()"
+    return f"TrainingOptions(rng={what})"
 
 
 def has_fold_query(queries):
@@ -364,7 +411,8 @@ def describe_history(pcs, n):
     parts = []
     for j, pc in enumerate(pcs[: n + 1]):
         nf = sum(1 for q in pc["queries"] if q["history"])
-        parts.append(f"train(d{j}, seed={pc['seed']}" + ("" if j == 0 else f", retrain={pc.get('retrain', True)}") + ")")
+        parts.append(f"train(d{j}, seed={pc['seed']}" + ("" if route_of(pc) == "int" else f" via {route_of(pc)}")
+                     + ("" if j == 0 else f", retrain={pc.get('retrain', True)}") + ")")
         parts.append(f"{len(pc['queries'])} queries ({nf} with a history)")
     return " -> ".join(parts)
 
@@ -573,12 +621,25 @@ def funksvd_parts(case, obs, noop=False, prev=None):
         c = obs["ctx"]
         if c is None:
             return "false"
-        smps = clist(list(zip(c["users"], c["items"], c["ratings"], c["bias"])),
+        # the samples as the property prescribes them: the stored ratings visited in the order drawn from a generator
+        # equal to the one the training was given (obs["order"]); the initial estimate of a rating is the one the code
+        # computed for that (user, item) pair
+        st = obs["stored"]
+        est = {(u, i): b for u, i, b in zip(c["users"], c["items"], c["bias"])}
+        if len(est) != len(c["users"]) or sorted(est) != sorted(zip(st["users"], st["items"])):
+            return "false"
+        smps = clist([(u, i, r, est[(u, i)]) for u, i, r in zip(st["users"], st["items"], st["ratings"])],
                      lambda s: f"({cnat(s[0])}, {cnat(s[1])}, {cfloat(s[2])}, {cfloat(s[3])})")
         rng = "None" if case["range"] is None else f"(Some ({cfloat(float(F(case['range'][0])).hex())}, {cfloat(float(F(case['range'][1])).hex())}))"
         p = (f"(fparams {cnat(case['epochs'])} {cfloat(float(F(case['lrate'])).hex())} "
              f"{cfloat(float(F(case['reg'])).hex())} {rng} {cfloat((0.1).hex())})")
-        parts.append(f"funksvd_agree {p} {cnat(case['k'])} {cnat(len(obs['users']))} {cnat(len(obs['items']))} {smps} {fm(obs['P'])} {fm(obs['Q'])}")
+        parts.append(f"funksvd_seeded_agree {p} {cnat(case['k'])} {cnat(len(obs['users']))} {cnat(len(obs['items']))} {smps} "
+                     f"{clist(obs['order'], cnat)} {fm(obs['P'])} {fm(obs['Q'])}")
+        tw = obs.get("twin")
+        if tw is None or tw.get("error"):
+            parts.append("false")
+        else:
+            parts.append(f"same_features {fm(obs['P'])} {fm(obs['Q'])} {fm(tw['P'])} {fm(tw['Q'])}")
     unum = {u: n for n, u in enumerate(obs["users"])}
     ivocab = pool.share(clist(obs["items"], cz), "list Z")
     bias = pool.share(c_bias(obs["bias"], len(obs["users"]), len(obs["items"])), "biases")
@@ -884,7 +945,21 @@ def oracle_funksvd(case, obs, noop=False, prev=None):
         return [("funksvd:not-trained", "train() returned without running the trainer")]
     c, e = obs["ctx"], obs["expected_order"]
     if (c["users"], c["items"], c["ratings"]) != (e["users"], e["items"], e["ratings"]):
-        v.append(("funksvd:sample-order", "the samples handed to the trainer are not the rating matrix in the seeded shuffle order"))
+        same = sorted(zip(c["users"], c["items"], c["ratings"])) == sorted(zip(e["users"], e["items"], e["ratings"]))
+        v.append(("funksvd:sample-order" + route_tag(case),
+                  f"{describe_route(case)}: the samples handed to the trainer are not the rating matrix in the seeded shuffle order "
+                  f"(the order drawn from a generator equal to the one the seed stands for)"
+                  + (f": (user, item) numbers visited {list(zip(c['users'], c['items']))[:6]}..., seeded order {list(zip(e['users'], e['items']))[:6]}..."
+                     if same else ": not even the same ratings")))
+    tw = obs.get("twin")
+    if tw is not None:
+        if tw.get("error"):
+            v.append(("funksvd:same-seed-second-training-error" + route_tag(case),
+                      f"{describe_route(case)}: a second training from an equal seed source on a new object raised {tw['error']}: {tw.get('msg')}"))
+        elif (tw["P"], tw["Q"]) != (obs["P"], obs["Q"]):
+            worst = max([abs(float.fromhex(a) - float.fromhex(b)) for ra, rb in zip(obs["P"] + obs["Q"], tw["P"] + tw["Q"]) for a, b in zip(ra, rb)], default=0.0)
+            v.append(("funksvd:same-seed-different-features" + route_tag(case),
+                      f"{describe_route(case)}: two trainings on the same data from equal seed sources left different features (max difference {worst:.3g})"))
     b = obs["bias"]
     for s, (u, i, h) in enumerate(zip(c["users"], c["items"], c["bias"])):
         want = F(b["global"]) + F(b["item"][i]) + F(b["user"][u])
@@ -990,6 +1065,9 @@ def counters(case, obs):
         pc, po = e["case"], e["obs"]
         if e["n"]:
             yield "later-training=" + str(phase_cases(case)[e["n"]].get("how"))
+        yield "seed-route=" + route_of(phase_cases(case)[e["n"]])
+        if case["kind"] == "funksvd" and not po.get("error") and po.get("ctx") is not None:
+            yield "funksvd-seed-route=" + route_of(phase_cases(case)[e["n"]])
         if po.get("error"):
             shape.append("train-error")
             if e["n"]:
@@ -1046,8 +1124,9 @@ def phase_counters(case, obs):
 
 def sample(case, obs):
     small = {k: case[k] for k in ("kind", "k", "epochs", "reg", "seed")}
+    small["seed_route"] = route_of(case)
     small["n_ratings"] = len(case["ratings"])
-    small["later_trainings"] = [{"how": t.get("how"), "retrain": t.get("retrain", True), "n_ratings": len(t["ratings"]), "seed": t["seed"]}
+    small["later_trainings"] = [{"how": t.get("how"), "retrain": t.get("retrain", True), "n_ratings": len(t["ratings"]), "seed": t["seed"], "seed_route": route_of(t)}
                                 for t in case.get("trainings") or []]
     o = {"error": obs.get("error")}
     if not obs.get("error"):
